@@ -348,6 +348,16 @@ XPathProcessorImpl::tokenize(const XalanDOMString&  pat)
         case XalanUnicode::charLessThanSign:
         case XalanUnicode::charGreaterThanSign:
             {
+                if (c == XalanUnicode::charDollarSign &&
+                    (i + 1 >= nChars || isXMLWhitespace(pat[i + 1]) == true))
+                {
+                    // VariableReference ::= '$' QName is a single token, so
+                    // the name must follow immediately...
+                    error(
+                        XalanMessages::IsNotValidNCName_1Param,
+                        s_emptyString);
+                }
+
                 if(startSubstring != XalanDOMString::npos)
                 {
                     if(XalanDOMString::npos != posOfNSSep)
